@@ -3,6 +3,7 @@ import sys, os, time, traceback, random
 from multiprocessing import Pool
 
 def kind_of(name):
+  if name.startswith('B[reject'): return 'reject'
   if name.startswith('B['): return 'true_loop' if ('true' in name or 'ring' in name) else 'false_loop'
   return 'acyclic'
 
@@ -63,7 +64,9 @@ def _job(a):
   try:
     Top,src=designs.load(name,body)
     k=kind_of(name)
-    if check=='sim': v=simcheck.check_sim(name,Top,k,seed)
+    if k=='reject' and check=='dag': v=[]
+    elif k=='reject': v=simcheck.check_sim(name,Top,k,seed)   # designs that every scheduler must refuse (the 'sched' and 'sim' checks coincide)
+    elif check=='sim': v=simcheck.check_sim(name,Top,k,seed)
     elif check=='dag': v=simcheck.check_dag(name,Top)[0]
     elif check=='sched': v=simcheck.check_schedules(name,Top,k!='acyclic')
     elif check=='flip': v=simcheck.check_flip(name,Top)
@@ -294,7 +297,34 @@ def run_meth(repo,seed,tier,procs=16):
   return [dict(key="zoo::method_constraints",ok=True,error=None,obligations=[],kind='bounded-standin',lines=None,ast_hash=None,info=None,time=sum(r['time'] for r in res),is_standin=True,
                standin=dict(evaluations=len(res),failures=fails,bound=bound,per_case={}))]
 
+def _regjob(a):
+  repo,seed,name,body,chain=a
+  if repo not in sys.path: sys.path.insert(0,repo)
+  from zoo import designs, regfam, simcheck
+  _no_graphviz(); t0=time.time()
+  try:
+    Top,src=designs.load(name,body)
+    v=regfam.check_ref(name,Top,chain,seed)+simcheck.check_flip(name,Top)
+    return dict(check='regs',design=name,failed=v,error=None,time=time.time()-t0)
+  except Exception as e:
+    return dict(check='regs',design=name,failed=[f"the design could not be elaborated/simulated: {type(e).__name__}: {str(e)[:160]}"],error=None,time=time.time()-t0)
+
+def run_reg(repo,seed,tier,procs=16):
+  from zoo import regfam
+  items=regfam.family_R()
+  with Pool(min(procs,len(items))) as p: res=p.map(_regjob,[(repo,seed,n,b,c) for n,b,c in items],chunksize=2)
+  srcs={n:(b,c) for n,b,c in items}
+  fails=[dict(args={'design':r['design']},failed=[m],custom=dict(kind='custom',module='zoo.replay',entry='replay_reg',design=r['design'],body=srcs[r['design']][0] if r['design'] in srcs else '',
+              chain=srcs[r['design']][1] if r['design'] in srcs else [],seed=seed)) for r in res for m in r['failed'][:2]]
+  bound=("register values after sim_reset() and after every sim_tick(), and the output after every sim_eval_combinational(), equal a pass-independent reference recurrence "
+         "(pre-edge values, hold when not assigned) under every pass group (default, simple x4 seeds, unrolled, heuristic-topological, Mamba2020), and the generated double-buffer function flips "
+         f"exactly the registers; family R of zoo/regfam.py: {len(items)} register hierarchies (flat with 1..24 branchy blocks, every two-level shape with 0..3 own registers and children with 0..3 registers "
+         "as attributes or a list, three-level shapes), 8 cycles of seeded inputs")
+  return [dict(key="zoo::register_hierarchies[R]",ok=True,error=None,obligations=[],kind='bounded-standin',lines=None,ast_hash=None,info=None,time=sum(r['time'] for r in res),is_standin=True,
+               standin=dict(evaluations=len(res),failures=fails,bound=bound,per_case={}))]
+
 # every job function runs under the wall-clock budget
+_regjob=budget(_regjob)
 _job=budget(_job)
 _netjob=budget(_netjob)
 _memjob=budget(_memjob)
